@@ -403,15 +403,28 @@ pub fn gen_c04(out: &mut dyn Write, _seed: u64, _thorough: bool) {
     let text = std::fs::read_to_string(path).expect("streams file");
     let mut used = 0usize;
     let mut dropped = 0usize;
+    let mut wf = 0usize;
+    let mut outside = 0usize;
     let mut hist: BTreeMap<String, usize> = BTreeMap::new();
     for line in text.lines() {
         let parts: Vec<&str> = line.split(' ').collect();
-        if parts.len() != 3 {
+        if parts.len() != 4 {
             continue;
+        }
+        // fourth field: the script satisfies the hypothesis of the Lean theorem decoder_complete
+        if parts[3] == "wf" {
+            wf += 1;
         }
         if parts[2] != "ok" {
             dropped += 1;
+            if parts[3] == "wf" {
+                // the reference decoder disagrees with the builder on a script the theorem covers
+                writeln!(out, "O eq ok:{} spec-self-check-failed-on-wf-script => ok", parts[1]).unwrap();
+            }
             continue;
+        }
+        if parts[3] != "wf" {
+            outside += 1;
         }
         used += 1;
         let cw = unhex(parts[0]);
@@ -428,6 +441,8 @@ pub fn gen_c04(out: &mut dyn Write, _seed: u64, _thorough: bool) {
     }
     writeln!(out, "# legal_streams {}", used).unwrap();
     writeln!(out, "# dropped_by_spec_self_check {}", dropped).unwrap();
+    writeln!(out, "# scripts_satisfying_WFScript {}", wf).unwrap();
+    writeln!(out, "# used_streams_outside_WFScript {}", outside).unwrap();
     for (k, v) in &hist {
         writeln!(out, "# {} {}", k, v).unwrap();
     }
